@@ -485,6 +485,9 @@ def run_history(ctx, seed):
                 elif p is not None and not p.is_shutdown and c.sim_creator == 'pool-init' and session.is_shutdown and pw.pool_finished_after_session_shutdown(p):
                     viol.append(('pool-installed-after-session-shutdown-never-shut-down', where + ': Session.add_or_renew_pool finished building this pool after '
                                  'Session.shutdown() had swept the pools; it is registered (or dropped) without ever being shut down'))
+                elif pname == 'HostConnectionPool' and c.sim_creator == 'pool-init' and '_connections' in p.__dict__ and '_trash' not in p.__dict__ and p._keyspace:
+                    viol.append(('pool-constructor-keyspace-failure-leaks-opened-connections', where + ': HostConnectionPool.__init__ had opened its core connections and '
+                                 'failed while setting the keyspace on one of them; the constructor raised and the other connections are never closed'))
                 elif pname == 'HostConnectionPool' and c.sim_creator == 'pool-init' and '_connections' not in p.__dict__:
                     viol.append(('pool-constructor-failure-leaks-opened-connections', where + ': HostConnectionPool.__init__ opened it and then failed on a later core '
                                  'connection; the constructor raised and nobody owns or closes the connection'))
